@@ -442,7 +442,9 @@ func genBlocks(r *core.Rand) (string, bool) {
 
 // genFaultFamily: one base history; a fault of one kind is armed before a
 // chosen step; one line per n (the n-th call of that kind fails).
-func genFaultFamily(r *core.Rand, emit func(class string, line string)) {
+var faultKinds = []string{"writeat", "sync", "openw", "remove", "truncate", "open", "readat", "writeat"}
+
+func genFaultFamily(r *core.Rand, kind string, emit func(class string, line string)) {
 	g := newDbGen(r, int(r.Pick(60, 100, 200)))
 	maxCache := pickMaxCache(r)
 	// prologue: some committed state with blocks in several files
@@ -464,7 +466,6 @@ func genFaultFamily(r *core.Rand, emit func(class string, line string)) {
 	pro := append([]string{}, g.ops...)
 	// the step under fault
 	g.ops = nil
-	kind := []string{"writeat", "writeat", "sync", "openw", "remove", "truncate", "open", "readat"}[r.Intn(8)]
 	switch kind {
 	case "open", "readat":
 		g.add("ro")
@@ -503,7 +504,7 @@ func genFaultFamily(r *core.Rand, emit func(class string, line string)) {
 	g.add("p:w:.:%s:%s", g.key(), hx(r.Bytes(2)))
 	g.end(true)
 	g.add("da")
-	g.add([]string{"ro", "cp", "cps"}[r.Intn(3)])
+	g.add("%s", []string{"ro", "cp", "cps"}[r.Intn(3)])
 	g.add("da")
 	epi := g.ops
 	nmax := 10
@@ -538,14 +539,15 @@ func genImageFamily(r *core.Rand, emit func(class string, line string)) {
 		}
 	}
 	body := g.ops
-	kind := []string{"writeat", "sync", "openw"}[r.Intn(3)]
 	op := []string{"ti", "tis"}[r.Intn(2)]
-	nmax := 10
-	if kind != "writeat" {
-		nmax = 4
-	}
-	for n := 1; n <= nmax; n++ {
-		ops := append(append([]string{fmt.Sprintf("%s:%s:%d", op, kind, n)}, body...), "tx", "da")
-		emit("image-"+op+"-"+kind, fmt.Sprintf("C05 db %d %d %s", g.maxFile, maxCache, strings.Join(ops, " ")))
+	for _, kind := range []string{"writeat", "sync", "openw"} {
+		nmax := 8
+		if kind != "writeat" {
+			nmax = 3
+		}
+		for n := 1; n <= nmax; n++ {
+			ops := append(append([]string{fmt.Sprintf("%s:%s:%d", op, kind, n)}, body...), "tx", "da")
+			emit("image-"+op+"-"+kind, fmt.Sprintf("C05 db %d %d %s", g.maxFile, maxCache, strings.Join(ops, " ")))
+		}
 	}
 }
